@@ -57,6 +57,8 @@ fn main() {
         "upstream" => streams::upstream::run(&mut r, n, &mut out),
         "resolve-local" => streams::resolve::run(&mut r, n, "local", &mut out),
         "resolve-universe" => streams::resolve::run(&mut r, n, "universe", &mut out),
+        "resolve-mutual-real" => streams::resolve::run(&mut r, n, "mutual-real", &mut out),
+        "resolve-mutual" => streams::resolve::run(&mut r, n, "mutual", &mut out),
         "resolve-faults" => streams::resolve::run(&mut r, n, "faults", &mut out),
         "server" => streams::server::run_serve(&mut r, n, &mut out),
         "reload" => streams::server::run_reload(&mut r, n, &mut out),
